@@ -5,6 +5,7 @@ package scen
 
 import (
 	"fmt"
+	"os"
 	"regexp"
 	"strings"
 	"time"
@@ -433,6 +434,22 @@ func idOf(input []byte) int {
 	return n
 }
 
+// cmdFile writes lines to a fresh temporary file (CRLF line ends when crlf) and returns its path.
+func cmdFile(lines []string, crlf bool) (string, error) {
+	f, err := os.CreateTemp("", "verif-cmds-*.txt")
+	if err != nil {
+		return "", err
+	}
+	nl := "\n"
+	if crlf {
+		nl = "\r\n"
+	}
+	for _, l := range lines {
+		f.WriteString(l + nl)
+	}
+	return f.Name(), f.Close()
+}
+
 // ---- scenario table --------------------------------------------------------------------------
 
 // All returns every scenario.
@@ -502,6 +519,34 @@ func All() []*Scenario {
 					return "", err
 				}
 				return fmt.Sprintf("complete seen-done=%v", strings.Contains(r.Result, "install DONE")), nil
+			}, Later: lf, LaterWant: lw})
+		l = append(l, &Scenario{Name: "g.sendcommands-fromfile", Driver: "generic", Quick: true, PerOp: true, New: newGeneric("privilege-exec"), Pre: openG,
+			Op: func(s *Session, o ...util.Option) (string, error) {
+				path, err := cmdFile([]string{"show a!", "show b%", "show c^"}, true)
+				if err != nil {
+					return "", err
+				}
+				defer os.Remove(path)
+				m, err := s.G.SendCommandsFromFile(path, o...)
+				if err != nil {
+					return "", err
+				}
+				return fmt.Sprintf("n=%d ", len(m.Responses)) + m.JoinedResult(), nil
+			}, Later: lf, LaterWant: lw})
+		// a callback whose own function does a blocking send: a stall (or loss) inside that nested
+		// send must surface with its own error class
+		l = append(l, &Scenario{Name: "g.callbacks-nested-send", Driver: "generic", Quick: true, PerOp: false, New: newGeneric("privilege-exec"), Pre: openG,
+			Op: func(s *Session, o ...util.Option) (string, error) {
+				cb1, _ := generic.NewCallback(func(d *generic.Driver, _ string) error {
+					_, err := d.Channel.SendInput("yes")
+					return err
+				}, opoptions.WithCallbackContains("[yes/no]"), opoptions.WithCallbackOnce(), opoptions.WithCallbackName("confirm"), opoptions.WithCallbackComplete())
+				to := callbackTimeout(s, o)
+				r, err := s.G.SendWithCallbacks("install", []*generic.Callback{cb1}, to)
+				if err != nil {
+					return "", err
+				}
+				return fmt.Sprintf("complete seen-question=%v", strings.Contains(r.Result, "[yes/no]")), nil
 			}, Later: lf, LaterWant: lw})
 		l = append(l, &Scenario{Name: "g.open-telnet", Driver: "generic", IsOpen: true, Quick: true, New: newLogin("telnet"),
 			Op: func(s *Session, _ ...util.Option) (string, error) { return "", openG(s) }, Later: lf, LaterWant: lw})
@@ -582,6 +627,19 @@ func All() []*Scenario {
 					return "", err
 				}
 				return "mode=" + mode(s) + " " + m.JoinedResult(), nil
+			}, Later: lfP, LaterWant: lwP})
+		l = append(l, &Scenario{Name: "n.sendconfigs-fromfile", Driver: "network", New: newNetwork("privilege-exec"), Pre: preCmd,
+			Op: func(s *Session, o ...util.Option) (string, error) {
+				path, err := cmdFile([]string{"set a!", "set b%"}, false)
+				if err != nil {
+					return "", err
+				}
+				defer os.Remove(path)
+				m, err := s.N.SendConfigsFromFile(path, o...)
+				if err != nil {
+					return "", err
+				}
+				return fmt.Sprintf("mode=%s n=%d ", mode(s), len(m.Responses)) + m.JoinedResult(), nil
 			}, Later: lfP, LaterWant: lwP})
 		l = append(l, &Scenario{Name: "n.acquire-config-after-command", Driver: "network", New: newNetwork("privilege-exec"), Pre: preCmd,
 			Op: func(s *Session, _ ...util.Option) (string, error) {
@@ -741,7 +799,7 @@ func All() []*Scenario {
 		for i, c := range calls {
 			ver := []string{"1.1", "1.0"}[i%2]
 			echo := i%3 == 2
-			l = append(l, ncScenario(fmt.Sprintf("nc.%s-%s%s", c.name, ver, map[bool]string{true: "-echo", false: ""}[echo]), ver, echo, c.name == "get", c.call, c.perOp))
+			l = append(l, ncScenario(fmt.Sprintf("nc.%s-%s%s", c.name, ver, map[bool]string{true: "-echo", false: ""}[echo]), ver, echo, c.name == "get" || c.name == "lock", c.call, c.perOp))
 		}
 		for _, ver := range []string{"1.0", "1.1"} {
 			// a reply of ~150 kB arriving in 4 kB reads: anything that behaves differently once a
